@@ -69,6 +69,8 @@ type Env struct {
 	// Mangle lets a fault rewrite (or drop, by returning nil) a response frame.
 	Mangle func(c *Conn, req *hb.Request, resp []byte) []byte
 
+	ExtraAct    func(f *Fault) bool // profile-specific fault actions
+	CutAfterAll int                 // cut every connection after this many delivered bytes
 	CancelOp    func(task, op, slot int)
 	CloseClient func()
 	StableAt    time.Duration
